@@ -821,7 +821,8 @@ def build_case_form(ctx, rng, cell, gdim, cplx, variants, with_cd, two_meshes, v
         if with_cd:
             Vc = ufl.FunctionSpace(mesh, mesh.ufl_coordinate_element())
             v1, v2 = ufl.Coefficient(Vc), ufl.Coefficient(Vc)
-            dirs = [(), (), (v1,), (v1,), (v2,), (v1, v2), (v2, v1), (ufl.Argument(Vc, arity),)]
+            # incl. the same direction twice (second-order Taylor terms) next to chains that differ by such a pair
+            dirs = [(), (), (v1,), (v1,), (v2,), (v1, v2), (v2, v1), (v1, v1), (v1, v1), (v2, v2), (v1, v1, v2), (ufl.Argument(Vc, arity),)]
         nint = rng.choice([2, 3, 3, 4, 4, 5, 6]) if not two_meshes else rng.choice([2, 3, 4])
         for _ in range(nint):
             it = rng.choice(sorted(pools))
